@@ -85,3 +85,19 @@ def cmp_parts(t):
     if t.op in ("gt", "ge") and len(t.args) == 2:
         return ("lt" if t.op == "gt" else "le"), t.args[1], t.args[0]
     return None
+
+
+def randint_range(x):
+    """(low, high) terms of an `rng(state, 'randint', args, kwargs)` draw: randint(n) / randint(lo, hi) /
+    randint(low=..., high=...); low defaults to 0 (None when it cannot be read off)"""
+    from .terms import Term, const
+
+    if not (isinstance(x, Term) and x.op == "rng" and len(x.args) >= 4 and x.args[1] == "randint"):
+        return None
+    pos = list(x.args[2]) if isinstance(x.args[2], tuple) else []
+    kw = dict(x.args[3]) if isinstance(x.args[3], tuple) else {}
+    lo = kw.get("low", pos[0] if pos else None)
+    hi = kw.get("high", pos[1] if len(pos) > 1 else None)
+    if hi is None:
+        lo, hi = const(0), lo  # a single bound is the exclusive upper end
+    return lo, hi
